@@ -27,6 +27,9 @@ Proof. intros HP HQ l1 e l2 E. split; [by eapply HP|by eapply HQ]. Qed.
 Lemma log_ok_impl (P Q : list ev -> ev -> Prop) l : (forall l e, P l e -> Q l e) -> log_ok P l -> log_ok Q l.
 Proof. intros H HP l1 e l2 E. apply H. by eapply HP. Qed.
 
+Lemma seq_head i n : 0 < n -> seq i n = i :: seq (S i) (n - 1).
+Proof. destruct n; [lia|]. intros _. cbn. by rewrite Nat.sub_0_r. Qed.
+
 (* ---------- the phase of the slot job ---------- *)
 Definition is_slot (o : qop) : bool := match o with Slot => true | _ => false end.
 Definition phase_of (q : list qop) (c : qcur) : nat :=
@@ -86,27 +89,43 @@ Proof.
 Qed.
 
 Lemma qshape_phase nb na s : qshape nb na s ->
-  (phase s = 0 /\ SlotStart ∉ s.(log)) \/
+  (phase s = 0 /\ SlotStart ∉ s.(log) /\ forall p, s.(cur) <> CSlot p) \/
   (exists p, s.(cur) = CSlot p /\ phase s = match p with QS1 => 1 | QS2 => 2 | QS3 => 3 end /\ SlotStart ∈ s.(log) /\ SlotEnd ∉ s.(log)) \/
   (phase s = 4 /\ SlotEnd ∈ s.(log) /\ SlotStart ∈ s.(log) /\ forall p, s.(cur) <> CSlot p).
 Proof.
   intros [i Hi Ho Hc H1 H2 H3 H4|p Ho Hc H1 H2 H3 H4|j Hj Ho Hc H1 H2 H3 H4]; unfold phase, phase_of.
-  - left. rewrite Ho, existsb_slot_full. done.
+  - left. rewrite Ho, existsb_slot_full. destruct Hc as [->|(j' & _ & ->)]; done.
   - right; left. exists p. rewrite Ho, existsb_slot_others, Hc. destruct p; done.
   - right; right. rewrite Ho, existsb_slot_others. destruct Hc as [->|(j' & _ & _ & ->)]; done.
+Qed.
+(* the slot job is in the FIFO at most once, and not while it runs *)
+Lemma qshape_exists nb na s : qshape nb na s ->
+  existsb is_slot s.(opq) = match s.(cur) with CSlot _ => false | _ => existsb is_slot s.(opq) end /\
+  forall q, s.(opq) = Slot :: q -> existsb is_slot q = false.
+Proof.
+  intros [i Hi Ho Hc H1 H2 H3 H4|p Ho Hc H1 H2 H3 H4|j Hj Ho Hc H1 H2 H3 H4].
+  - split; [destruct Hc as [->|(j' & _ & ->)]; done|]. intros q Hq. rewrite Ho in Hq.
+    destruct (decide (i = nb)) as [->|]; [|rewrite (seq_head i) in Hq by lia; done].
+    rewrite Nat.sub_diag in Hq. injection Hq as <-. apply existsb_slot_others.
+  - rewrite Ho, Hc, existsb_slot_others. split; [done|]. intros q Hq. destruct na; done.
+  - rewrite Ho, existsb_slot_others. split; [by destruct (cur s)|]. intros q Hq. destruct (nb + na - j); done.
 Qed.
 
 (* ---------- cells ---------- *)
 Definition task_waker_only (w : option waker) : Prop := w = None \/ w = Some WTask.
 
+Definition ready_done (s : state) : Prop := s.(ready).(o_sent) = true \/ s.(ready).(o_rxdrop) = true.
+Definition cells_at (ph : nat) (s : state) : Prop :=
+  match ph with
+  | 0 | 1 => s.(ready).(o_sent) = false /\ s.(sf).(sf_res) = SfNone /\ s.(parked) = false
+  | 2 => ready_done s /\ s.(sf).(sf_res) = SfNone /\
+         (s.(parked) = true -> fin_done s = false /\ (s.(fin).(o_waker) = Some WQueue \/ s.(fin).(o_waker) = Some WBoth))
+  | 3 => ready_done s /\ s.(sf).(sf_res) = SfNone /\ s.(parked) = false /\ fin_done s = true
+  | _ => ready_done s /\ (s.(sf).(sf_res) = SfOk \/ s.(sf).(sf_res) = SfReturned) /\ s.(parked) = false /\ fin_done s = true
+  end.
+
 Record cells_ok (s : state) : Prop := {
-  c_ready_unsent : phase s <= 1 -> s.(ready).(o_sent) = false;
-  c_ready_sent : 2 <= phase s -> s.(ready).(o_sent) = true \/ s.(ready).(o_rxdrop) = true;
-  c_fin_done : 3 <= phase s -> fin_done s = true;
-  c_sf_none : phase s <= 3 -> s.(sf).(sf_res) = SfNone;
-  c_sf_some : phase s = 4 -> s.(sf).(sf_res) = SfOk \/ s.(sf).(sf_res) = SfReturned;
-  c_parked : s.(parked) = true ->
-             phase s = 2 /\ fin_done s = false /\ (s.(fin).(o_waker) = Some WQueue \/ s.(fin).(o_waker) = Some WBoth);
+  c_at : cells_at (phase s) s;
   c_ready_tx : s.(ready).(o_txdrop) = false;
   c_fin_rx : s.(fin).(o_rxdrop) = false;
   c_w_ready : task_waker_only s.(ready).(o_waker);
@@ -115,15 +134,52 @@ Record cells_ok (s : state) : Prop := {
   c_tx : s.(txheld) = negb (fin_done s);
 }.
 
+Lemma cells_at_view ph s s' :
+  s'.(ready).(o_sent) = s.(ready).(o_sent) ->
+  (s.(ready).(o_rxdrop) = true -> s'.(ready).(o_rxdrop) = true) ->
+  fin_done s' = fin_done s -> s'.(fin).(o_waker) = s.(fin).(o_waker) ->
+  s'.(sf).(sf_res) = s.(sf).(sf_res) -> s'.(parked) = s.(parked) ->
+  cells_at ph s -> cells_at ph s'.
+Proof.
+  intros E1 E2 E3 E4 E5 E6. unfold cells_at, ready_done.
+  destruct ph as [|[|[|[|?]]]]; rewrite ?E1, ?E3, ?E4, ?E5, ?E6; naive_solver.
+Qed.
+
+(* consequences in implication form *)
+Lemma cells_unsent s : cells_ok s -> phase s <= 1 -> s.(ready).(o_sent) = false.
+Proof. intros [H _ _ _ _ _ _]. destruct (phase s) as [|[|?]]; cbn in H; [naive_solver|naive_solver|lia]. Qed.
+Lemma cells_ready_done s : cells_ok s -> 2 <= phase s -> ready_done s.
+Proof. intros [H _ _ _ _ _ _]. destruct (phase s) as [|[|[|[|?]]]]; cbn in H; try lia; naive_solver. Qed.
+Lemma cells_fin_done s : cells_ok s -> 3 <= phase s -> fin_done s = true.
+Proof. intros [H _ _ _ _ _ _]. destruct (phase s) as [|[|[|[|?]]]]; cbn in H; try lia; naive_solver. Qed.
+Lemma cells_sf_none s : cells_ok s -> phase s <= 3 -> s.(sf).(sf_res) = SfNone.
+Proof. intros [H _ _ _ _ _ _]. destruct (phase s) as [|[|[|[|?]]]]; cbn in H; try lia; naive_solver. Qed.
+Lemma cells_sf_some s : cells_ok s -> 4 <= phase s -> s.(sf).(sf_res) = SfOk \/ s.(sf).(sf_res) = SfReturned.
+Proof. intros [H _ _ _ _ _ _]. destruct (phase s) as [|[|[|[|?]]]]; cbn in H; try lia; naive_solver. Qed.
+Lemma cells_parked s : cells_ok s -> s.(parked) = true ->
+  phase s = 2 /\ fin_done s = false /\ (s.(fin).(o_waker) = Some WQueue \/ s.(fin).(o_waker) = Some WBoth).
+Proof.
+  intros [H _ _ _ _ _ _] Hp. destruct (phase s) as [|[|[|[|?]]]]; cbn in H.
+  - destruct H as (_ & _ & H); congruence.
+  - destruct H as (_ & _ & H); congruence.
+  - destruct H as (_ & _ & H). split; [done|by apply H].
+  - destruct H as (_ & _ & H & _); congruence.
+  - destruct H as (_ & _ & H & _); congruence.
+Qed.
+Lemma phase_le4 s : phase s <= 4.
+Proof. unfold phase, phase_of. destruct (existsb _ _); [lia|]. destruct (cur s) as [| |[]]; lia. Qed.
+
 (* ---------- the SyncFuture and its task ---------- *)
 Definition sf_state (x : sstate) : bool := match x with SWaitQueue | SWaitSched _ => true | _ => false end.
 Definition fo (F : sfacts) : bool := F.(f_state_dropped_first).
 
 Definition sst_ok (F : sfacts) (s : state) : Prop :=
   match s.(sst) with
-  | SWaitQueue => s.(ready).(o_rxdrop) = false /\ (s.(txheld) = true \/ (s.(pc) = PDropState /\ fo F = false))
-  | SWaitFuture => s.(ready).(o_sent) = true /\ (s.(txheld) = true \/ (s.(pc) = PDropState /\ fo F = false))
-  | SWaitSched v => v = s.(uval) /\ s.(ready).(o_sent) = true /\ s.(txheld) = false
+  | SWaitQueue => s.(ready).(o_rxdrop) = false /\ (s.(txheld) = true \/ (s.(pc) = PDropState /\ fo F = false)) /\
+                  s.(sf).(sf_res) <> SfReturned
+  | SWaitFuture => s.(ready).(o_sent) = true /\ (s.(txheld) = true \/ (s.(pc) = PDropState /\ fo F = false)) /\
+                   s.(sf).(sf_res) <> SfReturned
+  | SWaitSched v => v = s.(uval) /\ s.(ready).(o_sent) = true /\ s.(txheld) = false /\ s.(sf).(sf_res) <> SfReturned
   | SCompleted => True
   end.
 
@@ -149,7 +205,7 @@ Definition ulog_ok (s : state) : Prop :=
   (Dropped ∈ s.(log) <-> dropped s.(pc) = true) /\
   RetErr ∉ s.(log) /\
   match s.(sst) with
-  | SWaitQueue => UStart ∉ s.(log) /\ no_ret s.(log)
+  | SWaitQueue => UStart ∉ s.(log) /\ UCancel ∉ s.(log) /\ (forall v, UFinish v ∉ s.(log)) /\ no_ret s.(log)
   | SWaitFuture => UStart ∈ s.(log) /\ UCancel ∉ s.(log) /\ no_ret s.(log) /\
                    (if decide (s.(pc) = PFinSend) then UFinish s.(uval) ∈ s.(log) else forall v, UFinish v ∉ s.(log))
   | SWaitSched _ => UStart ∈ s.(log) /\ UFinish s.(uval) ∈ s.(log) /\ UCancel ∉ s.(log) /\ no_ret s.(log)
@@ -189,9 +245,9 @@ Proof.
     { unfold phase, phase_of, init, full_queue; cbn. by rewrite existsb_slot_full. }
     split; rewrite ?Hph; cbn; try done; try lia; try (by left).
     intros e c w [-> _]%lookup_replicate. cbn. set_solver.
-  - unfold sst_ok; cbn. split; [done|by left].
+  - unfold sst_ok; cbn. split; [done|]. split; [by left|done].
   - unfold pc_ok; cbn. done.
-  - unfold ulog_ok; cbn. split; [|split]; [split; [set_solver|done]|set_solver|]. split; [set_solver|]. intros ?; set_solver.
+  - unfold ulog_ok; cbn. split; [|split]; [split; [set_solver|done]|set_solver|]. split_and!; try set_solver. intros ?; set_solver.
   - unfold wait_ok; split; cbn.
     + intros e He. rewrite replicate_length. by apply Hscr.
     + intros _. by left.
@@ -199,9 +255,6 @@ Proof.
 Qed.
 
 (* ---------- queue steps ---------- *)
-Lemma seq_head i n : 0 < n -> seq i n = i :: seq (S i) (n - 1).
-Proof. destruct n; [lia|]. intros _. cbn. by rewrite Nat.sub_0_r. Qed.
-
 Lemma qs_qshape nb na r s s' : qshape nb na s -> queue_step r s = Some s' -> qshape nb na s'.
 Proof.
   intros Hq Hs. unfold queue_step in Hs.
@@ -277,35 +330,3 @@ Proof.
       * rewrite elem_snoc. by left.
 Qed.
 
-Ltac destruct_state s :=
-  let r := fresh "rdy" in let f := fresh "fn" in let c := fresh "sfc" in
-  destruct s as [opq0 cur0 parked0 pool0 r f c evs0 sst0 txheld0 uscr0 uval0 pc0 pollable0 log0];
-  destruct r as [rsent rtx rrx rwk]; destruct f as [fsent ftx frx fwk]; destruct c as [sres swk].
-
-Ltac qs_cases H :=
-  unfold queue_step, os_send, os_poll in H; cbn in H;
-  repeat match type of H with
-  | context [match ?x with _ => _ end] =>
-      first [ is_var x; destruct x | let E := fresh "E" in destruct x eqn:E ]; cbn in H
-  | context [if ?x then _ else _] =>
-      first [ is_var x; destruct x | let E := fresh "E" in destruct x eqn:E ]; cbn in H
-  end;
-  try discriminate H;
-  injection H as <-.
-
-Lemma qs_cells nb na r s s' :
-  qshape nb na s -> qshape nb na s' -> cells_ok s -> queue_step r s = Some s' -> cells_ok s'.
-Proof.
-  intros Hq Hq' Hc Hs.
-  pose proof (qshape_phase _ _ _ Hq) as Hph. pose proof (qshape_phase _ _ _ Hq') as Hph'.
-  clear Hq Hq'. destruct Hc. unfold task_waker_only, fin_done in *.
-  destruct_state s. cbn in *. qs_cases Hs.
-  all: cbn in *.
-  all: try (destruct rwk as [[]|]; try (destruct c_w_ready0; congruence)).
-  all: try (destruct swk as [[]|]; try (destruct c_w_sf0; congruence)).
-  all: cbn in *.
-  all: split; cbn.
-  all: try (destruct Hph as [Hph|[(p & Hp1 & Hph)|Hph]]; [| try (injection Hp1 as <-) |]; destruct Hph' as [Hph'|[(p' & Hp1' & Hph')|Hph']]; try (injection Hp1' as <-)).
-  all: try solve [naive_solver lia].
-  all: idtac "CASE"; match goal with |- ?g => idtac g end.
-Abort.
